@@ -121,7 +121,10 @@ impl DestState {
 
 fn injected_kind(k: u8) -> io::Error {
     // never ErrorKind::Interrupted: write_all legitimately retries that one
-    let kind = match k % 7 {
+    let kind = match k % 10 {
+        7 => io::ErrorKind::InvalidInput,
+        8 => io::ErrorKind::NotFound,
+        9 => io::ErrorKind::ConnectionReset,
         0 => io::ErrorKind::Other,
         1 => io::ErrorKind::WouldBlock,
         2 => io::ErrorKind::TimedOut,
@@ -296,7 +299,8 @@ impl Src {
         let s = Src::new(data);
         s.0.borrow_mut().fault_at = Some(at);
         s.0.borrow_mut().persistent = persistent;
-        s.0.borrow_mut().error_kind = (at % 7) as u8;
+        // the kind rotates with the fault point and with the persistence, so that one call site meets several kinds
+        s.0.borrow_mut().error_kind = ((at + if persistent { 3 } else { 0 }) % 10) as u8;
         s
     }
     pub fn set_epoch(&self, e: usize) {
